@@ -19,7 +19,12 @@ RULE = ('texts generated from (a) all sequences of <=3 tokens over the '
         'token alphabet of each engine, joined with and without blanks, (b) '
         'token soups, (c) one-character mutations of valid expressions, (d) '
         'the backslash-escape grid in 3 quote styles, (e) long numerals and '
-        'identifiers, (f) arbitrary unicode text; non-trivial = raises a '
+        'identifiers (also as the token the grammar rejects), (f) arbitrary '
+        'unicode text, (g) every stock operator with literal operands that '
+        'mean something to some interpreter of strings (regular expressions, '
+        'templates, numerals) and every combining mark as first character, '
+        '(h) the two-argument parse form with host options of any type; '
+        'non-trivial = raises a '
         'parsing exception, or has >=2 tokens and parses; distinct = distinct '
         '(engine, text)')
 ASSUMPTIONS = [
@@ -333,11 +338,41 @@ def long_inputs(full):
     return out
 
 
+def operand_grid(full):
+    """every operator symbol of the stock tables with literal operands that
+    mean something to *some* interpreter of strings (regular expressions,
+    format templates, numerals, names): whatever a grammar action does with a
+    constant operand, the outcome is a statement or a YAQL parsing error;
+    plus every combining mark as the first character of a text"""
+    import unicodedata
+    ops = ['=~', '!~', '+', '-', '*', '/', 'mod', '>', '<', '>=', '<=', '=',
+           '!=', 'in', 'and', 'or', '->', '.', '?.', '=>']
+    lits = ["'('", "'[a-z'", "'*.txt'", "'a{2,1}'", "'\\\\'", "'(?P<x'",
+            "''", "' '", "'%s %(x)s'", "'{0.a}'", "'\\d+)'", 'x', '(', '0',
+            "'1e999'", "'\\N{DIGIT ONE}'", '"(?i"', '`[`', "'\u0301'",
+            '999999999999999999999', '1.', "'a' 'b'"]
+    out = []
+    for op in ops:
+        for lit in lits:
+            out.append('$ %s %s' % (op, lit))
+            out.append('$.a %s %s +' % (op, lit))
+            if full:
+                out.append('%s %s $' % (lit, op))
+                out.append('f(%s %s %s)' % (lit, op, lit))
+    marks = [chr(c) for c in range(0x300, 0x3100)
+             if unicodedata.combining(chr(c))]
+    marks += ['\ufe20', '\U0001d165', '\u20e3', '\u200d', '\ufeff']
+    for m in (marks if full else marks[::3] + marks[:48]):
+        out += [m, m + 'abc', m + ' + 1', 'a' + m, '$.' + m, m + m]
+    return out
+
+
 WATCHDOG = 30
 
 
 def _list_shard(run, which, full, names, part, parts):
-    texts = escape_grid(full) if which == 'escapes' else long_inputs(full)
+    texts = escape_grid(full) if which == 'escapes' else operand_grid(
+        full) if which == 'operands' else long_inputs(full)
     for text in texts[part::parts]:
         for name in names:
             check_parse(run, {'kind': 'parse', 'engine': name,
@@ -386,6 +421,9 @@ def run(run):
     jobs = [('escapes', full, engines if full else ['default', 'legacy'],
              i, 8) for i in range(8)]
     jobs += [('long', full, engines if full else ['default'], i, 8)
+             for i in range(8)]
+    jobs += [('operands', full, engines if full else ['default', 'legacy',
+                                                       'delegates'], i, 8)
              for i in range(8)]
     run.shards(_list_shard, jobs, watchdog=WATCHDOG)
     # (b) soups, (c) mutations, (f) arbitrary text
